@@ -296,6 +296,34 @@ Proof. unfold runs. rewrite map_app, concat_app. reflexivity. Qed.
 Lemma all_nonempty_app a b : all_nonempty a -> all_nonempty b -> all_nonempty (a ++ b).
 Proof. unfold all_nonempty. intros. apply Forall_app. split; assumption. Qed.
 
+(* the end of the input: what was held back and what came with the error is decoded as it stands *)
+Lemma read_end_account cancel left bs sent : reader_ok (left ++ bs) (read_end left bs sent cancel).
+Proof.
+  unfold read_end.
+  pose proof (inner_account false cancel (length (left ++ bs)) (left ++ bs) sent (le_n _)) as A.
+  destruct (inner (length (left ++ bs)) (left ++ bs) false sent cancel) as [o s|o s r|o|o|].
+  - destruct A as (R & N & _). constructor; cbn [rd_why rd_out rd_left]; try discriminate; auto.
+    rewrite app_nil_r. exact R.
+  - destruct A as (R & N & _ & _ & _). constructor; cbn [rd_why rd_out rd_left]; try discriminate; auto.
+  - destruct A as ((rest & R) & N & _).
+    constructor; cbn [rd_why rd_out rd_left]; try discriminate; auto.
+    exists rest. exact R.
+  - contradiction.
+  - contradiction.
+Qed.
+
+(* ... and nothing stays held back unless a paste is still open *)
+Lemma read_end_nothing_held cancel left bs sent :
+  rd_why (read_end left bs sent cancel) = StopErr ->
+  rd_left (read_end left bs sent cancel) = [] \/ paste_open (rd_left (read_end left bs sent cancel)).
+Proof.
+  unfold read_end.
+  pose proof (inner_account false cancel (length (left ++ bs)) (left ++ bs) sent (le_n _)) as A.
+  destruct (inner (length (left ++ bs)) (left ++ bs) false sent cancel) as [o s|o s r|o|o|]; cbn [rd_why rd_left]; intros H; try discriminate H.
+  - left. reflexivity.
+  - right. destruct A as (_ & _ & _ & _ & [Hm|Hp]); [discriminate Hm|exact Hp].
+Qed.
+
 (* readAnsiInputs: whatever the script of reads, whatever is left over from
    before, the messages account for the input bytes exactly once, in order. *)
 Theorem reader_from_account cancel : forall script left sent,
@@ -332,18 +360,8 @@ Proof.
         exists (rest ++ script_bytes script). rewrite app_assoc, R, <- app_assoc. reflexivity.
       * contradiction.
       * contradiction.
-    + cbn. constructor; cbn; try discriminate; [constructor|]. rewrite app_nil_r. reflexivity.
-    + cbn [reader_from script_bytes].
-      pose proof (inner_account (Nat.eqb (length bs) buf_size) cancel (length (left ++ bs)) (left ++ bs) sent (le_n _)) as A.
-      destruct (inner (length (left ++ bs)) (left ++ bs) (Nat.eqb (length bs) buf_size) sent cancel) as [o s|o s r|o|o|].
-      * destruct A as (R & N & _). constructor; cbn [rd_why rd_out rd_left]; try discriminate; auto.
-        rewrite app_nil_r. exact R.
-      * destruct A as (R & N & _ & _ & _). constructor; cbn [rd_why rd_out rd_left]; try discriminate; auto.
-      * destruct A as ((rest & R) & N & _).
-        constructor; cbn [rd_why rd_out rd_left]; try discriminate; auto.
-        exists rest. exact R.
-      * contradiction.
-      * contradiction.
+    + cbn [reader_from script_bytes]. exact (read_end_account cancel left [] sent).
+    + cbn [reader_from script_bytes]. exact (read_end_account cancel left bs sent).
 Qed.
 
 Corollary reader_account script cancel : reader_ok (script_bytes script) (reader script cancel).
@@ -383,33 +401,29 @@ Theorem reader_cancel_bound k : forall script left sent, (sent <= k)%nat ->
   (sent + length (rd_out (reader_from script left sent (Some k))) <= k)%nat.
 Proof.
   induction script as [|c script IH]; intros left sent Hs; [cbn; lia|].
-  destruct c as [bs| |bs]; [|cbn; lia|].
-  - cbn [reader_from].
-    pose proof (inner_cancel_bound k (Nat.eqb (length bs) buf_size) (length (left ++ bs)) (left ++ bs) sent Hs) as B.
-    destruct (inner (length (left ++ bs)) (left ++ bs) (Nat.eqb (length bs) buf_size) sent (Some k)) as [o s|o s r|o|o|];
-      cbn [rd_out]; try rewrite app_length.
-    + destruct B as [B1 B2]. specialize (IH [] s B1). lia.
-    + destruct B as [B1 B2]. specialize (IH r s B1). lia.
-    + lia.
-    + cbn [length]. lia.
-    + cbn [length]. lia.
-  - cbn [reader_from].
-    pose proof (inner_cancel_bound k (Nat.eqb (length bs) buf_size) (length (left ++ bs)) (left ++ bs) sent Hs) as B.
-    destruct (inner (length (left ++ bs)) (left ++ bs) (Nat.eqb (length bs) buf_size) sent (Some k)) as [o s|o s r|o|o|];
-      cbn [rd_out]; try (destruct B as [B1 B2]); try lia; cbn [length]; lia.
-Qed.
-
-(* bytes that arrive together with the error are decoded like any other read's, then the reader stops with the error:
-   a script ending in ChunkErr bs behaves as one ending in Chunk bs followed by the bare error *)
-Lemma reader_data_with_error bs rest left sent cancel :
-  reader_from (ChunkErr bs :: rest) left sent cancel = reader_from [Chunk bs; ReadErr] left sent cancel.
-Proof.
+  assert (RE : forall bs, (sent + length (rd_out (read_end left bs sent (Some k))) <= k)%nat).
+  { intros bs. unfold read_end.
+    pose proof (inner_cancel_bound k false (length (left ++ bs)) (left ++ bs) sent Hs) as B.
+    destruct (inner (length (left ++ bs)) (left ++ bs) false sent (Some k)) as [o s|o s r|o|o|];
+      cbn [rd_out]; try (destruct B as [B1 B2]); try lia; cbn [length]; lia. }
+  destruct c as [bs| |bs]; [|cbn [reader_from]; apply RE|cbn [reader_from]; apply RE].
   cbn [reader_from].
-  destruct (inner (length (left ++ bs)) (left ++ bs) (Nat.eqb (length bs) buf_size) sent cancel); cbn;
-    rewrite ?app_nil_r; reflexivity.
+  pose proof (inner_cancel_bound k (Nat.eqb (length bs) buf_size) (length (left ++ bs)) (left ++ bs) sent Hs) as B.
+  destruct (inner (length (left ++ bs)) (left ++ bs) (Nat.eqb (length bs) buf_size) sent (Some k)) as [o s|o s r|o|o|];
+    cbn [rd_out]; try rewrite app_length.
+  - destruct B as [B1 B2]. specialize (IH [] s B1). lia.
+  - destruct B as [B1 B2]. specialize (IH r s B1). lia.
+  - lia.
+  - cbn [length]. lia.
+  - cbn [length]. lia.
 Qed.
 
-(* a read error ends the reader at once, whatever follows in the script *)
+(* a read error ends the reader at once, whatever follows in the script - after what was held back, and the bytes that
+   came together with the error, have been decoded as they stand *)
 Lemma reader_stops_on_error left sent cancel rest :
-  reader_from (ReadErr :: rest) left sent cancel = {| rd_out := []; rd_left := left; rd_why := StopErr |}.
+  reader_from (ReadErr :: rest) left sent cancel = read_end left [] sent cancel.
+Proof. reflexivity. Qed.
+
+Lemma reader_data_with_error bs rest left sent cancel :
+  reader_from (ChunkErr bs :: rest) left sent cancel = read_end left bs sent cancel.
 Proof. reflexivity. Qed.
